@@ -30,6 +30,7 @@ fn main() {
         "deflate-trace-generated" => deflate::trace_generated(&args),
         "deflate-replay-hex" => deflate::replay_hex(&args),
         "deflate-info" => deflate::info(&args),
+        "deflate-edge-replay" => deflate::edge_replay(&args),
         "deflate-pack" => deflate::pack(&args),
         "deflate-short" => deflate::exhaustive_short(&args),
         "container-replay" => container::replay(&args),
